@@ -585,6 +585,9 @@ pub fn corpus(thorough: bool) -> Vec<DetCase> {
             }),
         ));
     }
+    // unknown paths for the validation result: P is in both maps (derives plainly, an attribute recursively), Q has a
+    // plain derive and a plain attribute; whichever the maps yield first, the result is the same set
+    regs.push(("unknown paths in both maps".into(), RegSrc::Prog(arms_program(&U8, Position::NamedStruct, false, "N"))));
     // one path registered under two spellings (`p::a::N` and `::p::a::N`) with different derives
     regs.push((
         "one path, two spellings".into(),
@@ -673,6 +676,18 @@ pub fn corpus(thorough: bool) -> Vec<DetCase> {
                     ("p::a::Parent".into(), vec!["::z::OnlyParent".into()], false),
                 ];
                 s.attrs_for = vec![("p::a::Parent".into(), vec!["#[only_on_parent]".into()], false), ("p::a::Parent".into(), vec!["#[rec]".into()], true)];
+            }
+            if rn == "unknown paths in both maps" {
+                s.derives_for = vec![
+                    ("gone::P".into(), vec!["::z::PD".into()], false),
+                    ("gone::Q".into(), vec!["::z::QD".into()], false),
+                    ("gone::R".into(), vec!["::z::RD".into()], true),
+                ];
+                s.attrs_for = vec![
+                    ("gone::P".into(), vec!["#[p_attr]".into()], true),
+                    ("gone::Q".into(), vec!["#[q_attr]".into()], false),
+                    ("gone::R".into(), vec!["#[r_attr]".into()], false),
+                ];
             }
             if rn == "one path, two spellings" {
                 s.derives_for = vec![
